@@ -3,6 +3,7 @@ import PetgraphModel.Model.StableGraph
 import PetgraphModel.Spec.StableGraphSpec
 import PetgraphModel.Spec.C02W4Queries
 import PetgraphModel.Model.C02W4Calls
+import PetgraphModel.Model.C02W6Debug
 /-
 C02 driver: runs the mirror model (`SG.State`) and the abstract reference multigraph (`SGSpec.Spec`)
 side by side with the implementation's answers.
@@ -21,6 +22,16 @@ by the executable reference predicate `SGSpec.specQueryB` (theorem `C02_query_ju
 reference multigraph admits); the panicking variants run through `SG.pstep` and must panic EXACTLY when `Spec.panics` says so
 (`C02_panicking_variants`); `extend_with_edges` must complete iff `extendFits` and a panicking call must leave exactly the
 processed prefix behind (`C02_extend_general`); constructors run through `SG.construct` (`C02_constructors`).
+
+Wave 6 (corners of the API): `law <name> … => ok | VIOLATED <why>` lines carry the verdict of a LAW the harness checked on the
+implementation itself (iterator contracts of every iterator struct, `clone`/`clone_from`/`clear`/constructors observably equal,
+trait views = inherent methods, `Index` = `*_weight`, `Debug` never panics, `visit_map`/`reset_map`, `GetAdjacencyMatrix`,
+`IntoWeightedEdge` forms of `extend_with_edges`, `filter_elements`, the `u16` index limit, the `Frozen` proxy): anything but `ok`
+is a SPECFAIL.  `d.dbg` is the `Debug` rendering of the graph: compared exactly with `SG.renderDbg` (it shows `free_node` /
+`free_edge`) and its live parts judged against the reference (`C02_debug_refines`).  `retain_* rm c` with `c ≠ 0`: the closure
+also added `c` to every element it was shown (through `IndexMut` of the `Frozen` proxy) — a write happens when the element is
+shown, removals never read weights, so the call is `bump` followed by `retain_*`.  `family …` lines only label the generator
+family (for the distribution report).
 -/
 namespace PetgraphModel.C02
 open PetgraphModel PetgraphModel.SG PetgraphModel.SGSpec
@@ -358,6 +369,53 @@ def jToGraph (sp : Spec) (impl : String) : Option String :=
     if ws != wantN || got != exact then some "Graph::from a StableGraph without vacancies changed indices" else none
   else none
 
+/-! ### `Debug` (wave 6) -/
+
+def mDbg (s : SG.State) : String := renderDbg (dbgView s)
+
+/-- the text between the first occurrence of `pre` and the next occurrence of `post` -/
+def between (s pre post : String) : Option String :=
+  match s.splitOn pre with
+  | _ :: rest :: _ =>
+    match rest.splitOn post with
+    | x :: _ :: _ => some x
+    | _ => none
+  | _ => none
+
+def parseEdgePairs (t : String) : Option (List (Nat × Nat)) :=
+  let body := ((t.drop 1).dropEnd 1).toString
+  (body.splitOn "), (").mapM fun x =>
+    match x.splitOn ", " with
+    | [a, b] => match a.toNat?, b.toNat? with
+      | some a, some b => some (a, b)
+      | _, _ => none
+    | _ => none
+
+/-- spec-level judge of the `Debug` rendering: the parts that can be located in the text must show the reference's counts and
+live elements (a text of another shape is left to the exact comparison) -/
+def jDbg (sp : Spec) (impl : String) : Option String :=
+  if impl == "panic" then some "formatting the graph with {:?} panicked" else
+  let v := specDbg sp
+  let field (what pre post want : String) : Option String :=
+    match between impl pre post with
+    | some got => if got == want then none else some s!"Debug shows {what} [{got}], the reference has [{want}]"
+    | none => none
+  firstWhy [
+    field "node_count" "node_count: " "," (toString v.nodeCount),
+    field "edge_count" "edge_count: " "," (toString v.edgeCount),
+    field "the node weights" "node weights: " ", edge weights: " (showWeightMap v.nodeWeights),
+    field "the edge weights" ", edge weights: " ", free_node: " (showWeightMap v.edgeWeights),
+    match between impl ", edges: " ", node weights: " with
+    | some t =>
+      match parseEdgePairs t with
+      | some l =>
+        if l.map sp.canon == v.edges.map sp.canon then none
+        else some s!"Debug shows the edges [{t}], the reference has [{showEdgePairs v.edges}]"
+      | none => none
+    | none =>
+      if v.edges.isEmpty || (between impl "node_count: " ",").isNone then none
+      else some s!"Debug shows no edges, the reference has [{showEdgePairs v.edges}]"]
+
 /-! ### spec-level judges of the calls -/
 
 def missingOf (sp : Spec) (a b : Nat) : List Nat := [a, b].filter (fun x => !sp.nodeLive x)
@@ -452,10 +510,10 @@ def indexArgs (req : List String) : List Nat :=
   | [f, a, b, _] =>
     if f == "try_add_edge" || f == "add_edge" || f == "try_update_edge" || f == "update_edge" then [natOf a, natOf b] else []
   | ["remove_node", a] | ["remove_edge", a] => [natOf a]
+  | ["retain_nodes", rm, _] | ["retain_edges", rm, _] => parseNats rm
   | [f, a, _] =>
     if f == "node_weight_mut" || f == "index_mut_node" || f == "edge_weight_mut" || f == "index_mut_edge" then [natOf a] else []
   | ["index_twice", _, i, j, _, _] => [natOf i, natOf j]
-  | ["retain_nodes", rm] | ["retain_edges", rm] => parseNats rm
   | ["filter_map", dn, de, _, _] => parseNats dn ++ parseNats de
   | ["extend_with_edges", es] | ["from_edges", es] => (parseTriples es).flatMap fun (a, b, _) => [a, b]
   | _ => []
@@ -575,6 +633,10 @@ def step (d : DState) (req : List String) (impl : String) : DState × String :=
   | some i => (d, s!"SPECFAIL generator left the proved range: index argument {i} is not representable (Ix::max = {d.fin})")
   | none =>
   match req with
+  | "law" :: name =>
+    -- a law the harness checked on the implementation itself (c02laws.rs); the graph state is not touched
+    if impl == "ok" then (d, "ok")
+    else (d, s!"SPECFAIL law {String.intercalate " " name}: {impl}")
   | ["case", k, dir, w, dbg] =>
     let (fin, nl) := finOf w
     let directed := dir == "dir=1"
@@ -665,6 +727,25 @@ def step (d : DState) (req : List String) (impl : String) : DState × String :=
     let why := (jIdx "map: node closure calls" d.sp.nodeIds impl 1).orElse fun _ =>
       if sameMS (toks (part impl 1)) (d.sp.edgeIds.map toString) then none else some "map: edge closure was not called for exactly the live edges"
     (({ d with st := st, sp := d.sp.mapWeights cn ce }).after true false, verdict why m impl)
+  | ["retain_nodes", rm, c] =>
+    let rm := parseNats rm
+    let c := intOf c
+    -- the closure adds `c` to every node it is shown before deciding: `node_weights_mut` bump, then `retain_nodes`
+    let st0 := if c == 0 then d.st else (mapGraph d.st c 0).1
+    let sp0 := if c == 0 then d.sp else d.sp.mapWeights c 0
+    let (st, m) := runM (match retainNodes st0 rm with
+      | .ok (s, vis) => .ok (s, showNats vis) | .error x => .error x)
+    let why := if impl == "panic" then some "retain_nodes panicked" else jIdx "retain_nodes: closure calls" d.sp.nodeIds impl 1
+    (({ d with st := st, sp := sp0.retainNodes rm }).after true false, verdict why m impl)
+  | ["retain_edges", rm, c] =>
+    let rm := parseNats rm
+    let c := intOf c
+    let st0 := if c == 0 then d.st else (mapGraph d.st 0 c).1
+    let sp0 := if c == 0 then d.sp else d.sp.mapWeights 0 c
+    let (st, m) := runM (match retainEdges st0 rm with
+      | .ok (s, vis) => .ok (s, showNats vis) | .error x => .error x)
+    let why := if impl == "panic" then some "retain_edges panicked" else jIdx "retain_edges: closure calls" d.sp.edgeIds impl 1
+    (({ d with st := st, sp := sp0.retainEdges rm }).after true false, verdict why m impl)
   | [f, a, w] =>
     let a := natOf a
     let wi := intOf w
@@ -726,18 +807,6 @@ def step (d : DState) (req : List String) (impl : String) : DState × String :=
       verdict (expect "clear_edges" "ok" impl) "ok" impl)
   | ["clone"] | ["clone_from"] =>
     (d.after true false, verdict (expect "clone" "ok" impl) "ok" impl)
-  | ["retain_nodes", rm] =>
-    let rm := parseNats rm
-    let (st, m) := runM (match retainNodes d.st rm with
-      | .ok (s, vis) => .ok (s, showNats vis) | .error x => .error x)
-    let why := if impl == "panic" then some "retain_nodes panicked" else jIdx "retain_nodes: closure calls" d.sp.nodeIds impl 1
-    (({ d with st := st, sp := d.sp.retainNodes rm }).after true false, verdict why m impl)
-  | ["retain_edges", rm] =>
-    let rm := parseNats rm
-    let (st, m) := runM (match retainEdges d.st rm with
-      | .ok (s, vis) => .ok (s, showNats vis) | .error x => .error x)
-    let why := if impl == "panic" then some "retain_edges panicked" else jIdx "retain_edges: closure calls" d.sp.edgeIds impl 1
-    (({ d with st := st, sp := d.sp.retainEdges rm }).after true false, verdict why m impl)
   | ["filter_map", dn, de, cn, ce] =>
     let dn := parseNats dn
     let de := parseNats de
@@ -807,6 +876,9 @@ def step (d : DState) (req : List String) (impl : String) : DState × String :=
   | ["d.endq"] =>
     dumpLine d "d.endq" impl (mEndq d.st) (fun sp => jEndq sp d.fin impl)
   | ["d.tograph"] => dumpLine d "d.tograph" impl (mToGraph d.st) (fun sp => jToGraph sp impl)
+  | ["d.dbg"] => dumpLine d "d.dbg" impl (mDbg d.st) (fun sp => jDbg sp impl)
+  | ["family", _] => (d, "ok")
+  | "note" :: _ => (d, "ok")
   | ["uncaught"] => (d, "SPECFAIL a call that is valid for every graph state (or a query of the generator) panicked")
   | _ => bad
 
